@@ -166,9 +166,12 @@ func (fakeAddr) Network() string { return "tcp" }
 func (fakeAddr) String() string  { return "127.0.0.1:40000" }
 
 type fakeConn struct {
-	in  [][]byte
-	cur []byte
-	out bytes.Buffer
+	in     [][]byte
+	cur    []byte
+	out    bytes.Buffer
+	served int    // pieces handed to the server so far
+	at     int    // during runs when the server asks for piece number at (0 = the head) ...
+	during func() // ... that is: while this request is half received
 }
 
 func (c *fakeConn) Read(p []byte) (int, error) {
@@ -176,6 +179,12 @@ func (c *fakeConn) Read(p []byte) (int, error) {
 		if len(c.in) == 0 {
 			return 0, io.EOF
 		}
+		if c.during != nil && c.served == c.at {
+			f := c.during
+			c.during = nil
+			f()
+		}
+		c.served++
 		c.cur, c.in = c.in[0], c.in[1:]
 	}
 	n := copy(p, c.cur)
@@ -196,7 +205,14 @@ func (c *fakeConn) SetWriteDeadline(time.Time) error { return nil }
 // fragments (each underlying Read returns at most one fragment), so stream fragmentation
 // is deterministic.
 func (g *InProc) RoundTrip(head, body []byte, fragments []int) (resp []byte, err error) {
-	c := &fakeConn{}
+	return g.RoundTripDuring(head, body, fragments, 0, nil)
+}
+
+// RoundTripDuring is RoundTrip with an intermission: when the server asks for piece number at of the request (the
+// head is piece 0, the body fragments follow) during() runs to its end - typically another whole request - and only
+// then the piece is delivered. One goroutine, so the interleaving is exactly this one.
+func (g *InProc) RoundTripDuring(head, body []byte, fragments []int, at int, during func()) (resp []byte, err error) {
+	c := &fakeConn{at: at, during: during}
 	if len(fragments) == 0 {
 		c.in = [][]byte{append(append([]byte(nil), head...), body...)}
 	} else {
